@@ -23,7 +23,7 @@ from ..lang import to_mamba
 
 ID = "C14"
 LEVEL = "exploration"
-CHUNK = 8
+CHUNK = 1
 RULE = ("every placement of every listed trivia item in every base program; one case = one base with all its variants; non-trivial = variant of an "
         "accepted base whose output is compared byte for byte; distinct by variant text")
 ASSUMPTIONS = ["whole-line comments are inserted with the indentation of the neighbouring statement (previous or next), as the property states; other indentations are not in the space",
@@ -70,6 +70,11 @@ def variants(src, pairs=False):
             ins.append(("comment-like-prev", " " * indent_of(lines[prev]) + "# note"))
         if nxt is not None:
             ins.append(("comment-like-next", " " * indent_of(lines[nxt]) + "# note"))
+        if prev is not None and nxt is not None and indent_of(lines[prev]) != indent_of(lines[nxt]):
+            # two comment lines in one gap, each indented like one of the neighbouring statements, in both orders
+            a, b = " " * indent_of(lines[prev]) + "# note", " " * indent_of(lines[nxt]) + "# note"
+            ins.append(("comment-prev-then-next", a + "\n" + b))
+            ins.append(("comment-next-then-prev", b + "\n" + a))
         ins.append(("empty-line", ""))
         for k in (2, 4, 8, 12):
             ins.append(("spaces-only-%d" % k, " " * k))
@@ -114,8 +119,29 @@ def variants(src, pairs=False):
             yield d1 + "+" + d2, build(apply([o1, o2]))
 
 
+def target_sites(node, path=()):
+    """expression positions INSIDE assignment targets (the receiver of a field access, an index): gen_c04.sites skips
+    targets because they cannot be replaced by arbitrary expressions, but they can be parenthesised"""
+    if isinstance(node, list):
+        for i, x in enumerate(node):
+            yield from target_sites(x, path + (i,))
+        return
+    if not isinstance(node, tuple) or not node:
+        return
+    k = node[0] if isinstance(node[0], str) else None
+    ti = 1 if k == 'assign' else 2 if k == 'aug' else None
+    if ti is not None and isinstance(node[ti], tuple) and node[ti][0] in ('field', 'index') and len(node[ti]) == 3:
+        tgt = node[ti]
+        for j in (1, 2):
+            if isinstance(tgt[j], tuple):
+                yield from gen_c04.sites(tgt[j], path + (ti, j))
+    for i, x in enumerate(node):
+        if isinstance(x, (tuple, list)) and not (gen_c04.is_expr(node)):
+            yield from target_sites(x, path + (i,))
+
+
 def paren_variants(prog):
-    for path, e, role in gen_c04.sites(prog):
+    for path, e, role in itertools.chain(gen_c04.sites(prog), target_sites(prog)):
         if e[0] in ("range", "raw"):
             continue
         # the arguments a class passes to its parent are identifiers / literals in the grammar, not expressions
@@ -144,6 +170,16 @@ def cases(tier, seed):
         n += 1
         yield {"id": "c14-p%d" % n, "family": "c14.pool." + case["family"].split(".")[0], "src": src, "prog": case["prog"], "pairs": (not quick) and src.count("\n") <= 6,
                "tags": ["base:" + case["id"]]}
+    # constructs the generated pool does not contain: literals that span lines, doc strings, condition blocks
+    extra = [
+        ("multiline-string", 'def s := "ab\ncd"\nprint(s)\ndef a := 1\ndef t := "x{a}\ny"\nprint(t)\n'),
+        ("docstrings", '"""module\n\ndoc\n"""\nclass C\n    """class\n    doc\n    """\n    def m(self) -> Int =>\n        """\n        method doc\n        """\n        200\nprint(C().m())\n'),
+        ("type-conditions", 'class K\n    def a: Int := 20\ntype Small: K when\n    self.a > 10\n    self.a < 200\ntype Tiny: K when self.a < 2\nprint(1)\n'),
+        ("nested-blocks", 'def f(n: Int) -> Int =>\n    if n > 0 then\n        for i in 0 .. n do\n            print(i)\n        n\n    else\n        0\nprint(f(2))\n'),
+    ]
+    for name, src in extra:
+        n += 1
+        yield {"id": "c14-x%d" % n, "family": "c14.extra", "src": src, "prog": None, "pairs": not quick, "tags": ["extra:" + name]}
     files = sorted(corpus.files(), key=lambda ps: (ps[1].count("\n"), ps[0]))
     files = [f for f in files if f[1].strip()]
     for path, src in (files[:45] if quick else files):
